@@ -72,6 +72,9 @@ class C15(E1Check):
         base = [
             {"name": "csv/auto", "storage": "csv", "auto_index": True},
             {"name": "csv/manual", "storage": "csv", "auto_index": False},
+            # the database path is a symbolic link into another directory (temp files belong next to the link or the target,
+            # and must be gone afterwards either way)
+            {"name": "csv/auto/symlinked-path", "storage": "csv", "auto_index": True, "symlink": True, "D": 2 if self.tier == "quick" else 3},
         ]
         # ladder: a file beyond 64 KiB (1300 rows) for the access-mode probes; smaller rungs at depth 2
         lad = ladder.configs(self.ladder_sizes()[:1], storages=("csv",), autos=(True, False), D=2)
